@@ -32,16 +32,13 @@ Definition wspb_pack (lim : N) (p : list filter) (m : msg) : res (bytes * N) :=
   let b := wspb_payload (pipe_ids p) m body in
   Ok (b, sub_size lim b).
 
-Definition append_each_b (reg : registry) (l : list byte) : list filter :=
-  fold_left (fun p c => fst (pipe_append reg p [c])) l [].
-
 Section WsPb.
   Variable skip_group : bytes -> res bytes.
 
-  (* Unpack of ONE websocket message; every Append error is ignored *)
+  (* Unpack of ONE websocket message; the first Append error refuses the frame (/repo d626566) *)
   Definition wspb_unpack (reg : registry) (lim : N) (b : bytes) : res (msg * list byte * N) :=
     r <- pb_decode false skip_group schema_wspb b ;;
-    let p := append_each_b reg (pr_xfer r) in
+    p <- of_option (append_each_err reg (pr_xfer r) []) ;;
     body <- of_option (pipe_unpack p (pr_body r)) ;;
     meta <- args_parse (pr_meta r) ;;
     Ok (mkMsg (pr_seq r) (wrap8 (pr_mtype r)) (pr_method r) status_zero meta (wrap8 (pr_codec r)) body,
